@@ -82,7 +82,7 @@ Record oracle_tables := {
   t_f64_eqb : list ((Z * Z) * bool);
   t_f64_isnan : list (Z * bool);
   t_BigFloat_Float64 : list ((Z * Z) * (Z * Z));
-  t_BigFloat_SetFloat64 : list (Z * (Z * Z))
+  t_BigFloat_SetFloat64 : list ((Z * Z) * ((Z * Z) * Z))   (* (precision of the destination, float64 bits) -> (value stored, Acc()) *)
 }.
 
 (* an unanswered question yields a value no real answer has, so that the case is reported as a mismatch *)
@@ -96,7 +96,7 @@ Definition table_oracles (T : oracle_tables) : oracles := {|
   o_f64_eqb := fun x y => match look zz_eqb (x, y) (t_f64_eqb T) with Some b => b | None => Z.eqb x y end;
   o_f64_isnan := fun x => match look Z.eqb x (t_f64_isnan T) with Some b => b | None => false end;
   o_BigFloat_Float64 := fun f => match look zz_eqb f (t_BigFloat_Float64 T) with Some r => r | None => (-1, -7) end;
-  o_BigFloat_SetFloat64 := fun x => match look Z.eqb x (t_BigFloat_SetFloat64 T) with Some f => f | None => (-7, -7) end;
+  o_BigFloat_SetFloat64 := fun p x => match look zz_eqb (p, x) (t_BigFloat_SetFloat64 T) with Some r => r | None => ((-7, -7), -7) end;
   o_TimeParse := fun _ _ => Err;
   o_TimeFormat := fun _ _ => "?"%string
 |}.
